@@ -8,19 +8,20 @@ pub mod h5 {
    use crate::common::*;
    ascent! {
       pub struct Prog;
-      relation r0(i64, i64);
-      relation r1(i64, i64, i64);
-      relation r2(i64);
+      relation r0(i64, i64, i64);
+      relation r1(i64, i64);
+      relation r2(i64, i64, i64);
       relation r3(i64, i64);
-      r1(v0, v0, ((*v0) + 1)) <-- r0(2, v0), if ((*v0) < 6);
-      r2(v0) <-- if let Some(v0) = None::<i64>, r0((v0 + 1), 2);
-      r3(2, v0) <-- r1(v0, 0, v1), r2(v2);
-      r2(v0) <-- r0(v0, v1), r0(v0, v0), r0(v1, v2);
-      r2(v0) <-- r0(v0, v1) if ((*v0) < 3), r3(v1, v2) if ((*v2) != (*v1));
-      r3(v0, v0) <-- r0(0, v0);
-      r2(v1) <-- r1(v0, v1, v2), r2(v3);
-      r2(0) <-- r3(v0, v1), r1(v2, v3, v1), r0(3, v0) if ((*v0) < 1);
-      r3(v1, v0) <-- r3(3, v0), r3(v1, v0), let v2 = 4;
+      relation r4(i64, i64);
+      r2(v1, 2, v1) <-- r0(0, v0, v1);
+      r3(2, v0) <-- let v0 = 2, r0(v1, v2, v0) if ((*v1) != 6), if (v0 <= 6);
+      r4(v0, v1) <-- r2(1, v0, v1), let v2 = (*v0), r3(v3, ((*v1) + 0));
+      r4(v0, v8) <-- if let Some(v9) = Some(2), r4(v0, v1), r1(v1, v9) let v8 = ((*v0) + 1);
+      r4(v0, v1) <-- for v9 in 0..4, r1(v0, v1), r3(v9, v1);
+      r1(v3, 2) <-- r1(v0, 1), if ((*v0) <= 1), r2(v0, 0, v1) if ((*v1) <= 4), r2(v1, ((*v1) + 1), 3) if ((*v1) < 4) let v2 = ((*v1) + 0), if let Some(v3) = Some(((*v1) + 1)), if (v3 <= 6);
+      r4(v2, 2) <-- r0(v0, v1, v2), r1(((*v0) + 1), 1);
+      r2(v3, v2, v2) <-- if let Some(v0) = Some(0), r1(v1, v0), r3(1, v2), let v3 = (*v2), r3(v1, v3), if (v3 <= 6);
+      r3(v1, v3) <-- if let Some(v0) = Some(1), r2(v1, v2, v0), r0(2, 0, v3), r0(v3, v1, v4);
    }
    pub struct Inst { p: Prog, pool: Option<ascent::rayon::ThreadPool> }
    pub fn make(pool: Option<usize>) -> Box<dyn Driver> {
@@ -31,10 +32,11 @@ pub mod h5 {
    impl Driver for Inst {
       fn load(&mut self, rel: usize, rows: &[Sexp], append: bool) -> Option<()> {
          match rel {
-         0 => { let v: Vec<(i64,i64,)> = parse_rows(rows)?; if append { self.p.r0.extend(v) } else { self.p.r0 = v } },
-         1 => { let v: Vec<(i64,i64,i64,)> = parse_rows(rows)?; if append { self.p.r1.extend(v) } else { self.p.r1 = v } },
-         2 => { let v: Vec<(i64,)> = parse_rows(rows)?; if append { self.p.r2.extend(v) } else { self.p.r2 = v } },
+         0 => { let v: Vec<(i64,i64,i64,)> = parse_rows(rows)?; if append { self.p.r0.extend(v) } else { self.p.r0 = v } },
+         1 => { let v: Vec<(i64,i64,)> = parse_rows(rows)?; if append { self.p.r1.extend(v) } else { self.p.r1 = v } },
+         2 => { let v: Vec<(i64,i64,i64,)> = parse_rows(rows)?; if append { self.p.r2.extend(v) } else { self.p.r2 = v } },
          3 => { let v: Vec<(i64,i64,)> = parse_rows(rows)?; if append { self.p.r3.extend(v) } else { self.p.r3 = v } },
+         4 => { let v: Vec<(i64,i64,)> = parse_rows(rows)?; if append { self.p.r4.extend(v) } else { self.p.r4 = v } },
             _ => return None,
          }
          Some(())
@@ -42,7 +44,7 @@ pub mod h5 {
       fn run(&mut self) { match &self.pool { Some(pl) => { let p = &mut self.p; pl.install(|| p.run()) }, None => self.p.run() } }
       fn run_here(&mut self) { self.p.run() }
       fn run_timeout(&mut self, k: usize) -> Option<bool> { let _ = k; None }
-      fn dump(&self) -> String { vec![dump_rel(0, self.p.r0.iter().map(Row::render).collect()), dump_rel(1, self.p.r1.iter().map(Row::render).collect()), dump_rel(2, self.p.r2.iter().map(Row::render).collect()), dump_rel(3, self.p.r3.iter().map(Row::render).collect())].join(" | ") }
+      fn dump(&self) -> String { vec![dump_rel(0, self.p.r0.iter().map(Row::render).collect()), dump_rel(1, self.p.r1.iter().map(Row::render).collect()), dump_rel(2, self.p.r2.iter().map(Row::render).collect()), dump_rel(3, self.p.r3.iter().map(Row::render).collect()), dump_rel(4, self.p.r4.iter().map(Row::render).collect())].join(" | ") }
       fn iters(&self) -> String { format!("iters {}", self.p.scc_iters.iter().map(|x| x.to_string()).collect::<Vec<_>>().join(" ")) }
    }
 }
@@ -56,13 +58,19 @@ pub mod h13 {
    ascent! {
       pub struct Prog;
       relation r0(i64, i64);
-      relation r1(i64, i64);
+      relation r1(i64);
       relation r2(i64, i64);
       relation r3(i64, i64);
-      r2(v0, v1) <-- r0(v0, v1), r2(v0, v0), r0(v1, v2);
-      r1(((*v1) + 1), ((*v0) + 1)) <-- r2(v0, v1), if ((*v1) < 6), if ((*v0) < 6);
-      r3(v2, v0) <-- r0(v0, v1) if ((*v0) < 1), r2(2, v2), r3(((*v1) + 1), ((*v2) + 1));
-      r3(v1, v2) <-- r0(v0, v1) if ((*v1) <= 2), r1(((*v0) + 0), v2);
+      relation r4(i64, i64, i64);
+      relation r5(i64, i64);
+      r2(v0, 1) <-- r1(v0), r1(1);
+      r3(v4, 1) <-- r2(v0, v1) if ((*v0) < 5), if ((*v0) == 0), r5(v2, v3), if let Some(v4) = Some((*v2)), if (v4 <= 6);
+      r4(2, v1, v0) <-- r3(v0, 0) if ((*v0) < 2) let v1 = ((*v0) + 1), if let Some(v2) = Some(v1), r2((v1 + 0), v3) if (v1 <= 3) let v4 = (v2 + 0), for v5 in 1..1, if (v1 <= 6);
+      r5(v0, v0) <-- let v0 = 3, r4(v0, (v0 + 0), v0), if (v0 <= 6);
+      r4(v0, v1, v0) <-- r2(v0, v1), r5(v1, v1);
+      r2(v0, v1) <-- r2(v0, v1) if ((*v0) < 2), r5(v1, v2) if ((*v2) != (*v1));
+      r5(2, 2) <-- r1(3);
+      r3(v0, v0) <-- for v0 in 0..2, r0(v0, v0) if (v0 < 3);
    }
    pub struct Inst { p: Prog, pool: Option<ascent::rayon::ThreadPool> }
    pub fn make(pool: Option<usize>) -> Box<dyn Driver> {
@@ -74,9 +82,11 @@ pub mod h13 {
       fn load(&mut self, rel: usize, rows: &[Sexp], append: bool) -> Option<()> {
          match rel {
          0 => { let v: Vec<(i64,i64,)> = parse_rows(rows)?; if append { self.p.r0.extend(v) } else { self.p.r0 = v } },
-         1 => { let v: Vec<(i64,i64,)> = parse_rows(rows)?; if append { self.p.r1.extend(v) } else { self.p.r1 = v } },
+         1 => { let v: Vec<(i64,)> = parse_rows(rows)?; if append { self.p.r1.extend(v) } else { self.p.r1 = v } },
          2 => { let v: Vec<(i64,i64,)> = parse_rows(rows)?; if append { self.p.r2.extend(v) } else { self.p.r2 = v } },
          3 => { let v: Vec<(i64,i64,)> = parse_rows(rows)?; if append { self.p.r3.extend(v) } else { self.p.r3 = v } },
+         4 => { let v: Vec<(i64,i64,i64,)> = parse_rows(rows)?; if append { self.p.r4.extend(v) } else { self.p.r4 = v } },
+         5 => { let v: Vec<(i64,i64,)> = parse_rows(rows)?; if append { self.p.r5.extend(v) } else { self.p.r5 = v } },
             _ => return None,
          }
          Some(())
@@ -84,7 +94,7 @@ pub mod h13 {
       fn run(&mut self) { match &self.pool { Some(pl) => { let p = &mut self.p; pl.install(|| p.run()) }, None => self.p.run() } }
       fn run_here(&mut self) { self.p.run() }
       fn run_timeout(&mut self, k: usize) -> Option<bool> { let _ = k; None }
-      fn dump(&self) -> String { vec![dump_rel(0, self.p.r0.iter().map(Row::render).collect()), dump_rel(1, self.p.r1.iter().map(Row::render).collect()), dump_rel(2, self.p.r2.iter().map(Row::render).collect()), dump_rel(3, self.p.r3.iter().map(Row::render).collect())].join(" | ") }
+      fn dump(&self) -> String { vec![dump_rel(0, self.p.r0.iter().map(Row::render).collect()), dump_rel(1, self.p.r1.iter().map(Row::render).collect()), dump_rel(2, self.p.r2.iter().map(Row::render).collect()), dump_rel(3, self.p.r3.iter().map(Row::render).collect()), dump_rel(4, self.p.r4.iter().map(Row::render).collect()), dump_rel(5, self.p.r5.iter().map(Row::render).collect())].join(" | ") }
       fn iters(&self) -> String { format!("iters {}", self.p.scc_iters.iter().map(|x| x.to_string()).collect::<Vec<_>>().join(" ")) }
    }
 }
@@ -99,16 +109,13 @@ pub mod hl3 {
       pub struct Prog;
       relation r0(i64, i64);
       relation r1(i64, i64);
-      relation r2(i64, i64);
-      lattice r3(i64, i64);
-      lattice r4(Set<i64>);
-      r3(2, 0) <-- r0(1, v0);
-      r3(v0, (*v0)) <-- r3(v0, v1), r3(v2, v3);
-      r4(Set::singleton(3)) <-- r0(v0, v1) if ((*v0) < 2);
-      r4(Set::singleton((*v2))) <-- r4(v0), r0(v1, v2);
-      r1(3, 3) <-- r4(v0);
-      r0(v0, v2) <-- r3(v0, v1), r2(v2, v0) if ((*v0) < 5);
-      r4(Set::singleton(0)) <-- r3(v0, v1);
+      lattice r2(Dual<i64>);
+      r2(Dual((*v1))) <-- r0(v0, v1);
+      r2(Dual(4)) <-- r2(v0), r1(v1, v2);
+      r2(Dual(1)) <-- r2(v0), r2(v1);
+      r2(Dual((*v0))) <-- r0(2, v0) if ((*v0) < 5), r0(v1, v0);
+      r1(v3, v0) <-- r1(v0, v1) if ((*v0) < 5), r1(v2, v3) if ((*v1) < 4);
+      r2(Dual(((v2.0) + 1))) <-- r1(v0, v1), r2(v2);
    }
    pub struct Inst { p: Prog, pool: Option<ascent::rayon::ThreadPool> }
    pub fn make(pool: Option<usize>) -> Box<dyn Driver> {
@@ -121,9 +128,7 @@ pub mod hl3 {
          match rel {
          0 => { let v: Vec<(i64,i64,)> = parse_rows(rows)?; if append { self.p.r0.extend(v) } else { self.p.r0 = v } },
          1 => { let v: Vec<(i64,i64,)> = parse_rows(rows)?; if append { self.p.r1.extend(v) } else { self.p.r1 = v } },
-         2 => { let v: Vec<(i64,i64,)> = parse_rows(rows)?; if append { self.p.r2.extend(v) } else { self.p.r2 = v } },
-         3 => { let v: Vec<(i64,i64,)> = parse_rows(rows)?; if append { self.p.r3.extend(v) } else { self.p.r3 = v } },
-         4 => { let v: Vec<(Set<i64>,)> = parse_rows(rows)?; if append { self.p.r4.extend(v) } else { self.p.r4 = v } },
+         2 => { let v: Vec<(Dual<i64>,)> = parse_rows(rows)?; if append { self.p.r2.extend(v) } else { self.p.r2 = v } },
             _ => return None,
          }
          Some(())
@@ -131,7 +136,7 @@ pub mod hl3 {
       fn run(&mut self) { match &self.pool { Some(pl) => { let p = &mut self.p; pl.install(|| p.run()) }, None => self.p.run() } }
       fn run_here(&mut self) { self.p.run() }
       fn run_timeout(&mut self, k: usize) -> Option<bool> { let _ = k; None }
-      fn dump(&self) -> String { vec![dump_rel(0, self.p.r0.iter().map(Row::render).collect()), dump_rel(1, self.p.r1.iter().map(Row::render).collect()), dump_rel(2, self.p.r2.iter().map(Row::render).collect()), dump_rel(3, self.p.r3.iter().map(Row::render).collect()), dump_rel(4, self.p.r4.iter().map(Row::render).collect())].join(" | ") }
+      fn dump(&self) -> String { vec![dump_rel(0, self.p.r0.iter().map(Row::render).collect()), dump_rel(1, self.p.r1.iter().map(Row::render).collect()), dump_rel(2, self.p.r2.iter().map(Row::render).collect())].join(" | ") }
       fn iters(&self) -> String { format!("iters {}", self.p.scc_iters.iter().map(|x| x.to_string()).collect::<Vec<_>>().join(" ")) }
    }
 }
